@@ -66,6 +66,11 @@ def shapes(tier, seed):
                 [('org', C(1), None), ('data', '.byte', [V('d0')]), ('include', 'inc.asm'), ('data', '.byte', [V('d2')]), ('unmute',),
                  ('data', '.byte', [V('d3')])], hi, end=None,
                 files={'inc.asm': [('data', '.byte', [V('d4')]), ('mute',), ('data', '.byte', [V('d1')])]}))
+    # the window is what the options say, also beyond the address space / beyond a redefined GLOBAL zone
+    S.append(mk('window-beyond-address-space:end', [('org', C(4), None), ('data', '.byte', [V('d0'), V('d1')]), ('org', C(13), None),
+                                                     ('data', '.byte', [V('d2'), V('d3')])], 40, address_bits=4))
+    S.append(mk('window-beyond-redefined-global:end', [('org', C(4), None), ('data', '.byte', [V('d0'), V('d1')])], 30,
+                global_zone=(2, 9), origin=2))
     S.append(mk('predef-block-and-zone:end',
                 [('instr', 'nop', None), ('memzone', 'Z'), ('data', '.byte', [V('d0'), V('d1')]),
                  ('memzone', 'GLOBAL'), ('instr', 'ld8', ('lsb', V('d2')))], hi if tier != 'quick' else 12,
